@@ -232,6 +232,11 @@ impl<KC, DC, C> Database<KC, DC, C> {
             Bound::Unbounded => None };
         Ok(RoRange { store: txn.store, lo, hi, started: false, cur: 0, _m: PhantomData })
     }
+    pub fn range_mut<'a, 'txn, R>(&self, txn: &'txn mut RwTxn, range: &'a R) -> Result<RwRange<'txn, KC, DC>>
+    where KC: BytesEncode<'a>, R: RangeBounds<KC::EItem> {
+        let ro = self.range(&txn.txn, range)?;
+        Ok(RwRange { r: RoRange { store: ro.store, lo: ro.lo, hi: ro.hi, started: false, cur: 0, _m: PhantomData } })
+    }
     pub fn first<'txn>(&self, txn: &'txn RoTxn) -> Result<Option<(KC::DItem, DC::DItem)>>
     where KC: BytesDecode<'txn>, DC: BytesDecode<'txn> {
         match txn.s().seek(0, false) { Some(i) => decode_pair::<KC, DC>(txn.store, i).map(Some), None => Ok(None) }
@@ -308,6 +313,38 @@ impl<'txn, KC: BytesDecode<'txn>, DC: BytesDecode<'txn>> Iterator for RoRange<'t
         self.cur = k;
         Some(decode_pair::<KC, DC>(self.store, i))
     }
+}
+
+pub struct RwRange<'txn, KC, DC> { r: RoRange<'txn, KC, DC> }
+impl<'txn, KC, DC> RwRange<'txn, KC, DC> {
+    pub fn remap_types<KC2, DC2>(self) -> RwRange<'txn, KC2, DC2> { RwRange { r: self.r.remap_types() } }
+    pub fn remap_key_type<KC2>(self) -> RwRange<'txn, KC2, DC> { self.remap_types() }
+    pub fn remap_data_type<DC2>(self) -> RwRange<'txn, KC, DC2> { self.remap_types() }
+    fn on(&self) -> Option<usize> { if !self.r.started { return None; } unsafe { &*self.r.store }.find(self.r.cur) }
+    pub unsafe fn del_current(&mut self) -> Result<bool> {
+        match self.on() { Some(i) => { (&mut *self.r.store).del_at(i); Ok(true) } None => Ok(false) }
+    }
+    pub unsafe fn put_current<'a>(&mut self, key: &'a KC::EItem, data: &'a DC::EItem) -> Result<bool>
+    where KC: BytesEncode<'a>, DC: BytesEncode<'a> {
+        self.put_current_with_options::<DC>(PutFlags::empty(), key, data).map(|()| true)
+    }
+    pub unsafe fn put_current_with_options<'a, NDC>(&mut self, _flags: PutFlags, key: &'a KC::EItem, data: &'a NDC::EItem) -> Result<()>
+    where KC: BytesEncode<'a>, NDC: BytesEncode<'a> {
+        let kb = KC::bytes_encode(key).map_err(Error::Encoding)?;
+        let vb = NDC::bytes_encode(data).map_err(Error::Encoding)?;
+        let s = &mut *self.r.store;
+        s.writes += 1;
+        if s.fail_at != 0 && s.writes == s.fail_at { return Err(Error::Mdb(MdbError::MapFull)); }
+        match self.on() {
+            Some(i) if s.keys[i] == k64(&kb) => { if vb.len() > VMAX { return Err(Error::Mdb(MdbError::MapFull)); }
+                let n = vb.len(); let mut t = 0; while t < CAP { if t == i { s.vals[t][..n].copy_from_slice(&vb); s.vlen[t] = n; } t += 1; } Ok(()) }
+            _ => Err(Error::Mdb(MdbError::Other(22))),
+        }
+    }
+}
+impl<'txn, KC: BytesDecode<'txn>, DC: BytesDecode<'txn>> Iterator for RwRange<'txn, KC, DC> {
+    type Item = Result<(KC::DItem, DC::DItem)>;
+    fn next(&mut self) -> Option<Self::Item> { self.r.next() }
 }
 
 pub struct RwPrefix<'txn, KC, DC> { c: Cursor, _m: PhantomData<(&'txn (), KC, DC)> }
